@@ -81,11 +81,15 @@ EXHAUSTIVE_SCOPE = {
                 "printable command keys) from Vi navigation, and named-first pairs from Vi insert and Emacs",
 }
 TRUSTED = ["harness/c05.py + c05_editor.py: the tracing Buffer subclass logs every call of a state-writing primitive "
-           "(outermost only) and the state after it; compares with the Lean model line by line",
+           "(outermost only) and the state after it; key sessions are run once per check, inside the generating "
+           "worker, which also pipes the logged calls through the compiled Lean driver and compares line by line "
+           "(core.py gets the full line lists only for sessions that diverged, and on --replay)",
            "Ptk/Model/C05.lean is a hand translation of the Buffer state-writing API, _call_handler, "
            "_fix_vi_cursor_position, vi_navigation_mode, ViState.input_mode/reset, validate_and_handle",
            "Gen/C05.lean: AST scan of /repo for writes to Buffer private state / selection anchor / multiple cursors "
-           "outside buffer.py, pinned by theorem bypass_pin"]
+           "outside buffer.py, pinned by theorem bypass_pin",
+           "the default key bindings object is shared between the Applications of one harness process (same "
+           "handlers and filters; checked equal to fresh bindings on 500 sessions; C05_FRESH_BINDINGS=1 disables it)"]
 ASSUMPTIONS = ["CPython str/list/deque semantics",
                "handlers touch the Buffer state only through the modelled API and the pinned by-passing writes "
                "(checked on every traced key session, not proved)",
@@ -300,10 +304,6 @@ def buffer_invariant_violations(b: Buffer, site: str):
 # =====================================================================================
 # kind "api": programs over the Buffer API on a bare Buffer
 # =====================================================================================
-def api_lines(case, fresh):
-    return None
-
-
 def run_api(case):
     """-> (impl lines, violations)"""
     out, viol = [], []
@@ -1130,9 +1130,13 @@ def distribution(cases_):
                     "read_only_sessions": 0,
                     "multiline_sessions": 0, "vi_sessions": 0, "emacs_sessions": 0}}
     s = d["search"]
+    seen = set()
     for c in cases_:
         d["kind"][c["kind"]] = d["kind"].get(c["kind"], 0) + 1
         if c["kind"] == "keys":
+            if c.get("tkey") in seen:     # the enumerated part repeats under seed escalation
+                continue
+            seen.add(c.get("tkey"))
             s["key_sessions"] += 1
             p = _PRE.get(c.get("tkey"))
             if p:
